@@ -212,7 +212,7 @@ def length_guards(job):
                 raised = repr(e)
             if not job.confirm('fd_weights_all guard m=%d n=%d' % (m, n), raised is should_raise):
                 job.violation('fdw', dict(key='C11:fd_weights_all-guard', kind='len', m=m, n=n, raised=str(raised)))
-        for lf in range(max(1, m - 2), m + 3):
+        for lf in sorted(set(range(max(1, m - 2), m + 3)) | {2 * m, 3 * m, 5 * m}):      # also whole multiples of len(x)
             if lf == m:
                 continue
             try:
